@@ -28,7 +28,7 @@ RULE = (
     'without parentheses. Rounds 7-8: zero as option, value and threshold; constraints written below a '
     'modification; integer nodes with options in a custom unit; the same condition text on two nodes; a refusal '
     'has to come from parse(). Round 9: the empty string among the options; a node compared with another node '
-    'and, in the same condition, with plain numbers. Distinct = distinct rendered text.'
+    'and, in the same condition, with plain numbers. Round 10: large whole numbers as options of integer nodes (a value one off is not an option). Distinct = distinct rendered text.'
 )
 ASSUMPTIONS = [
     "values stay in [0.1, 1e4] (plus a few of 1e-7..1e-10) and are never inside [0.3,3]x the library's 1e-6 relative comparison tolerance of a threshold",
